@@ -136,6 +136,11 @@ def r1_no_escape(cx):
             for cc in find_calls(h.body):
                 if not is_benign_call(cc):
                     cx.unknown(cc, "call inside the observer handler is not in the benign-call table")
+                # an observer is an arbitrary callable (functools.partial, an object with __call__): asking for its name can itself raise,
+                # and an exception raised inside the handler escapes through the 'finally' of the execution loop
+                if (call_name(cc) or "").split(".")[-1] in ("get_name", "get_simple_name") and cc.args and U(cc.args[0]) == U(c.func):
+                    cx.bad(cc, "the observer handler does nothing that can raise: it does not inspect the observer object (get_name(<observer>) fails for a callable without __name__)",
+                           construct=short(stmt_of(cc), 110))
     for c in find_calls(fo.body):
         if c in ocalls or enclosing(c, ast.Try) is not None:
             continue
